@@ -27,33 +27,35 @@ Proof.
   cbn. intros H. bool_simp. rewrite nonroot_spec in *. done.
 Qed.
 
-(* a resource whose indicator the modification does not touch is unchanged *)
-Lemma xdisk_untouched d x r :
-  wf_disk d -> xguard d x = true -> xtouch x r = false -> xdisk d x !! r = d !! r.
+(* a resource the modification does not touch keeps its node, modification time included *)
+Lemma xdisk_untouched t d x r :
+  wf_disk d -> xguard d x = true -> xtouch x r = false -> xdisk t d x !! r = d !! r.
 Proof.
   intros Hwf Hg Ht.
-  destruct x as [p c|p isd|p|p q]; [| | |apply guard_move_parts in Hg as (?&?&?&?&?&?&?)]; cbn in *; bool_simp.
-  - by rewrite lookup_insert_ne.
-  - by rewrite lookup_insert_ne.
-  - rewrite remove_tree_lookup. by destruct (under p r).
-  - by apply move_tree_lookup_other.
+  destruct x as [p c kp|p isd|p|p q]; [| | |apply guard_move_parts in Hg as (?&?&?&?&?&?&?)]; cbn in *; bool_simp.
+  - destruct (d !! p) as [[c' mt|mt]|]; try done. by rewrite lookup_insert_ne.
+  - rewrite set_mt_lookup. destruct (decide (r = parent p)); [done|]. by rewrite lookup_insert_ne.
+  - rewrite set_mt_lookup. destruct (decide (r = parent p)); [done|].
+    rewrite remove_tree_lookup. by destruct (under p r).
+  - rewrite !set_mt_lookup. destruct (decide (r = parent q)); [done|]. destruct (decide (r = parent p)); [done|].
+    rewrite touch_under_other by done. by apply move_tree_lookup_other.
 Qed.
 
 (* ... and so is the existence of each of its children *)
-Lemma xdisk_child_exists d x r k :
+Lemma xdisk_child_exists t d x r k :
   wf_disk d -> xguard d x = true -> xtouch x r = false -> child_of r k = true ->
-  is_Some (xdisk d x !! k) <-> is_Some (d !! k).
+  is_Some (xdisk t d x !! k) <-> is_Some (d !! k).
 Proof.
   intros Hwf Hg Ht Hc.
-  destruct x as [p c|p isd|p|p q]; [| | |apply guard_move_parts in Hg as (?&?&?&?&?&?&?)]; cbn in *; bool_simp.
-  - destruct (d !! p) as [[c'|]|] eqn:Ep; try done.
+  destruct x as [p c kp|p isd|p|p q]; [| | |apply guard_move_parts in Hg as (?&?&?&?&?&?&?)]; cbn in *; bool_simp.
+  - destruct (d !! p) as [[c' mt|mt]|] eqn:Ep; try done.
     destruct (decide (k = p)) as [->|]; [rewrite lookup_insert, Ep; by split|by rewrite lookup_insert_ne].
-  - destruct (decide (k = p)) as [->|]; [|by rewrite lookup_insert_ne].
+  - rewrite set_mt_is_Some. destruct (decide (k = p)) as [->|]; [|by rewrite lookup_insert_ne].
     apply child_of_spec in Hc as [_ Hc]. congruence.
-  - rewrite remove_tree_lookup. destruct (under p k) eqn:Eu; [|done].
+  - rewrite set_mt_is_Some, remove_tree_lookup. destruct (under p k) eqn:Eu; [|done].
     destruct (child_under p r k Hc Eu) as [->|?]; [|congruence].
     apply child_of_spec in Hc as [_ Hc]. congruence.
-  - rewrite move_tree_lookup_other; [done|done|done| |].
+  - rewrite !set_mt_is_Some, touch_under_is_Some. rewrite move_tree_lookup_other; [done|done|done| |].
     + destruct (under p k) eqn:Eu; [|done].
       destruct (child_under p r k Hc Eu) as [->|?]; [|congruence].
       apply child_of_spec in Hc as [_ Hc]. congruence.
@@ -87,28 +89,28 @@ Proof.
     rewrite Hc. cbn. by rewrite (is_submodule_ext d d' r k H Hc).
 Qed.
 
-Lemma xdisk_children d x r :
-  wf_disk d -> xguard d x = true -> xtouch x r = false -> children (xdisk d x) r = children d r.
-Proof. intros. apply children_ext. intros. by apply (xdisk_child_exists d x r). Qed.
+Lemma xdisk_children t d x r :
+  wf_disk d -> xguard d x = true -> xtouch x r = false -> children (xdisk t d x) r = children d r.
+Proof. intros. apply children_ext. intros. by apply (xdisk_child_exists t d x r). Qed.
 
-Lemma xdisk_matches d x r v :
-  wf_disk d -> xguard d x = true -> xtouch x r = false -> matches d r v -> matches (xdisk d x) r v.
+(* [matches] only looks at what the resource is and at its child list *)
+Lemma matches_rview d d' r v : rview d' r = rview d r -> matches d r v -> matches d' r v.
 Proof.
-  intros Hwf Hg Ht. destruct v as [c|ch]; cbn.
-  - by rewrite xdisk_untouched.
-  - rewrite xdisk_untouched by done. intros [? Hch]. split; [done|].
-    destruct ch; [|done]. by rewrite xdisk_children.
+  unfold rview. intros [= Hk Hc]. destruct v as [c|ch]; cbn; rewrite Hk; [done|].
+  intros [? Hch]. split; [done|]. destruct ch; [|done]. by rewrite Hc.
 Qed.
 
-Lemma xdisk_dexists d x r :
-  wf_disk d -> xguard d x = true -> xtouch x r = false -> dexists (xdisk d x) r = dexists d r.
-Proof.
-  intros. destruct r; [done|]. unfold dexists. by rewrite xdisk_untouched.
-Qed.
+Lemma xdisk_rview t d x r :
+  wf_disk d -> xguard d x = true -> xtouch x r = false -> rview (xdisk t d x) r = rview d r.
+Proof. intros. unfold rview. by rewrite xdisk_untouched, xdisk_children. Qed.
 
-(* the file list does not depend on contents *)
-Lemma files_of_write d p c c' :
-  d !! p = Some (File c) -> files_of (<[p := File c']> d) = files_of d.
+Lemma xdisk_cur_ind c t d x r :
+  wf_disk d -> xguard d x = true -> xtouch x r = false -> cur_ind c (xdisk t d x) r = cur_ind c d r.
+Proof. intros. unfold cur_ind. destruct r; [done|]. by rewrite xdisk_untouched. Qed.
+
+(* the file list does not depend on contents or modification times *)
+Lemma files_of_write d p c mt c' mt' :
+  d !! p = Some (File c mt) -> files_of (<[p := File c' mt']> d) = files_of d.
 Proof.
   intros Hp. unfold files_of. apply set_eq. intros k.
   rewrite !elem_of_dom. unfold is_Some. setoid_rewrite map_filter_lookup_Some. cbn.
@@ -117,67 +119,68 @@ Proof.
   - by rewrite lookup_insert_ne.
 Qed.
 
-Lemma shape_write d p c c' :
-  d !! p = Some (File c) -> shape (<[p := File c']> d) = shape d.
+Lemma shape_write d p c mt c' mt' :
+  d !! p = Some (File c mt) -> shape (<[p := File c' mt']> d) = shape d.
 Proof.
   intros Hp. unfold shape. rewrite fmap_insert. cbn.
   apply insert_id. by rewrite lookup_fmap, Hp.
 Qed.
 
 (* ------------------------------------------------------------------ well-formedness is preserved *)
-Lemma disdir_insert_file d p c k :
-  d !! p = None \/ (exists c', d !! p = Some (File c')) ->
-  disdir d k = true -> disdir (<[p := File c]> d) k = true.
+Lemma disdir_insert_file d p c mt k :
+  d !! p = None \/ (exists c' mt', d !! p = Some (File c' mt')) ->
+  disdir d k = true -> disdir (<[p := File c mt]> d) k = true.
 Proof.
-  intros Hp. rewrite !disdir_spec. intros [->|Hk]; [by left|right].
-  rewrite lookup_insert_ne; [done|]. intros ->. destruct Hp as [Hp|[c' Hp]]; congruence.
+  intros Hp. rewrite !disdir_spec. intros [->|[t Hk]]; [by left|right]. exists t.
+  rewrite lookup_insert_ne; [done|]. intros ->. destruct Hp as [Hp|(c' & mt' & Hp)]; congruence.
 Qed.
 
 Lemma disdir_insert_new d p n k :
   d !! p = None -> disdir d k = true -> disdir (<[p := n]> d) k = true.
 Proof.
-  intros Hp. rewrite !disdir_spec. intros [->|Hk]; [by left|right].
+  intros Hp. rewrite !disdir_spec. intros [->|[t Hk]]; [by left|right]. exists t.
   rewrite lookup_insert_ne; [done|]. congruence.
 Qed.
 
-Lemma xdisk_wf d x : wf_disk d -> xguard d x = true -> wf_disk (xdisk d x).
+Lemma xdisk_wf t d x : wf_disk d -> xguard d x = true -> wf_disk (xdisk t d x).
 Proof.
-  intros Hwf Hg. destruct x as [p c|p isd|p|p q]; cbn in *.
-  - destruct (d !! p) as [[c'|]|] eqn:Ep; try done.
+  intros Hwf Hg. destruct x as [p c kp|p isd|p|p q]; cbn in *.
+  - destruct (d !! p) as [[c' mt|mt]|] eqn:Ep; try done.
     intros k n Hk. destruct (decide (k = p)) as [->|Hne].
     + destruct (Hwf _ _ Ep) as [? Hd]. split; [done|]. apply disdir_insert_file; eauto.
     + rewrite lookup_insert_ne in Hk by done. destruct (Hwf _ _ Hk) as [? Hd].
       split; [done|]. apply disdir_insert_file; eauto.
-  - bool_simp. rewrite nonroot_spec in *.
+  - apply set_mt_wf. bool_simp. rewrite nonroot_spec in *.
     assert (d !! p = None) as Ep.
     { destruct p; [done|]. cbn in *. bool_simp. by apply eq_None_not_Some. }
     intros k n Hk. destruct (decide (k = p)) as [->|Hne].
     + split; [done|]. by apply disdir_insert_new.
     + rewrite lookup_insert_ne in Hk by done. destruct (Hwf _ _ Hk) as [? Hd].
       split; [done|]. by apply disdir_insert_new.
-  - intros k n Hk. rewrite remove_tree_lookup in Hk.
+  - apply set_mt_wf. intros k n Hk. rewrite remove_tree_lookup in Hk.
     destruct (under p k) eqn:Eu; [done|]. destruct (Hwf _ _ Hk) as [Hk0 Hd]. split; [done|].
-    apply disdir_spec in Hd as [Hd|Hd]; apply disdir_spec; [by left|right].
+    apply disdir_spec in Hd as [Hd|[t' Hd]]; apply disdir_spec; [by left|right]. exists t'.
     rewrite remove_tree_lookup. destruct (under p (parent k)) eqn:Eu'; [|done].
     rewrite (under_of_parent p k Eu') in Eu; [done|by apply nonroot_spec].
-  - apply guard_move_parts in Hg as (Hp0 & Hq0 & Hpe & Hqe & Hqd & Hpq & Hqp).
+  - apply set_mt_wf, set_mt_wf, touch_under_wf.
+    apply guard_move_parts in Hg as (Hp0 & Hq0 & Hpe & Hqe & Hqd & Hpq & Hqp).
     intros k n Hk. rewrite move_tree_lookup in Hk by done.
     destruct (under p k) eqn:Eup; [done|].
     destruct (under q k) eqn:Euq.
     + apply under_spec in Euq as [r ->]. rewrite swapf_under_q in Hk by done.
       split; [by destruct q|].
       destruct r as [|x r].
-      * rewrite app_nil_r. apply disdir_spec in Hqd as [Hqd|Hqd]; apply disdir_spec; [by left|right].
+      * rewrite app_nil_r. apply disdir_spec in Hqd as [Hqd|[t' Hqd]]; apply disdir_spec; [by left|right]. exists t'.
         rewrite move_tree_lookup_other; [done|done|done| |].
         -- destruct (under p (parent q)) eqn:E; [|done].
            rewrite (under_of_parent p q E) in Hpq; [done|by apply nonroot_spec].
         -- by apply not_under_parent_self.
       * rewrite parent_app_nonnil by done. apply disdir_spec. right.
-        rewrite move_tree_lookup_q by done.
         destruct (Hwf _ _ Hk) as [_ Hd]. rewrite parent_app_nonnil in Hd by done.
-        apply disdir_spec in Hd as [Hd|Hd]; [by destruct p|done].
+        apply disdir_spec in Hd as [Hd|[t' Hd]]; [by destruct p|]. exists t'.
+        by rewrite move_tree_lookup_q.
     + rewrite swapf_other in Hk by done. destruct (Hwf _ _ Hk) as [Hk0 Hd]. split; [done|].
-      apply disdir_spec in Hd as [Hd|Hd]; apply disdir_spec; [by left|right].
+      apply disdir_spec in Hd as [Hd|[t' Hd]]; apply disdir_spec; [by left|right]. exists t'.
       rewrite move_tree_lookup_other; [done|done|done| |].
       * destruct (under p (parent k)) eqn:E; [|done].
         rewrite (under_of_parent p k E) in Eup; [done|by apply nonroot_spec].
@@ -185,61 +188,68 @@ Proof.
         rewrite (under_of_parent q k E) in Euq; [done|by apply nonroot_spec].
 Qed.
 
-(* ====================================================== the invariant while indicators may be stale *)
-Definition P_mods (s : state) : Prop :=
-  map_Forall (fun r v => exists w, watched s !! r = Some w /\ w <> WNone /\ (w = WCur -> matches (dsk s) r v))
-             (mods s).
-Definition P_watched (s : state) : Prop :=
-  map_Forall (fun r w => w = WCur -> dexists (dsk s) r = true) (watched s).
-Definition PendInv (s : state) : Prop :=
-  wf_disk (dsk s) /\ P_mods s /\ P_watched s /\ C_cells s.
+(* ============================================================= changes behind rope's back: frames *)
+Lemma xstep_parts s x :
+  mods (xstep s x) = mods s /\ cells (xstep s x) = cells s /\ flist (xstep s x) = flist s
+  /\ watched (xstep s x) = watched s /\ cfg (xstep s x) = cfg s.
+Proof. unfold xstep. by destruct (xguard (dsk s) x). Qed.
 
-Lemma coherent_pend s : CacheCoherent s -> PendInv s.
+Lemma xsteps_parts s xs :
+  mods (foldl xstep s xs) = mods s /\ cells (foldl xstep s xs) = cells s /\ flist (foldl xstep s xs) = flist s
+  /\ watched (foldl xstep s xs) = watched s /\ cfg (foldl xstep s xs) = cfg s.
 Proof.
-  intros (Hwf & Hm & _ & Hw & Hc). split; [done|]. split; [|split; [|done]].
-  - intros r v Hr. destruct (Hm r v Hr) as [Hwr Hma]. exists WCur. done.
-  - intros r w Hr. by destruct (Hw r w Hr).
+  revert s. induction xs as [|x xs IH]; intros s; cbn; [done|].
+  destruct (IH (xstep s x)) as (->&->&->&->&->). apply xstep_parts.
 Qed.
 
-Lemma stale_of_cur w : stale_of w = WCur -> False.
-Proof. by destruct w. Qed.
+Lemma xstep_wf s x : wf_disk (dsk s) -> wf_disk (dsk (xstep s x)).
+Proof. intros. unfold xstep. destruct (xguard (dsk s) x) eqn:Hg; [|done]. by apply xdisk_wf. Qed.
 
-Lemma stale_of_none w : stale_of w = WNone -> w = WNone.
-Proof. by destruct w. Qed.
+Lemma xsteps_wf s xs : wf_disk (dsk s) -> wf_disk (dsk (foldl xstep s xs)).
+Proof. revert s. induction xs as [|x xs IH]; intros s H; cbn; [done|]. by apply IH, xstep_wf. Qed.
 
-Lemma xstep_watched s x r :
-  xguard (dsk s) x = true ->
-  watched (xstep s x) !! r = (fun w => if xtouch x r then stale_of w else w) <$> watched s !! r.
+(* what no modification of the batch touches is as before *)
+Lemma xsteps_untouched s xs r :
+  wf_disk (dsk s) -> (forall x, x ∈ xs -> xtouch x r = false) ->
+  dsk (foldl xstep s xs) !! r = dsk s !! r /\ children (dsk (foldl xstep s xs)) r = children (dsk s) r.
 Proof.
-  intros Hg. unfold xstep. rewrite Hg. cbn. rewrite map_lookup_imap.
-  by destruct (watched s !! r).
+  revert s. induction xs as [|x xs IH]; intros s Hwf Hx; cbn; [done|].
+  destruct (IH (xstep s x)) as [-> ->]; [by apply xstep_wf|intros; apply Hx; by right|].
+  unfold xstep. destruct (xguard (dsk s) x) eqn:Hg; [|done]. cbn.
+  rewrite xdisk_untouched, xdisk_children; try done; apply Hx; by left.
 Qed.
 
-Lemma xstep_pend s x : PendInv s -> PendInv (xstep s x).
+(* a modification below f only touches what validate(f) looks at *)
+Lemma inside_spec f r : inside f r = true <-> under f r = true.
 Proof.
-  intros (Hwf & Hm & Hw & Hc).
-  destruct (xguard (dsk s) x) eqn:Hg; [|unfold xstep; by rewrite Hg].
-  assert (dsk (xstep s x) = xdisk (dsk s) x) as Hd by (unfold xstep; by rewrite Hg).
-  assert (mods (xstep s x) = mods s) as Hmo by (unfold xstep; by rewrite Hg).
-  assert (cells (xstep s x) = cells s) as Hce by (unfold xstep; by rewrite Hg).
-  split; [rewrite Hd; by apply xdisk_wf|]. split; [|split].
-  - intros r v Hr. rewrite Hmo in Hr. destruct (Hm r v Hr) as (w & Hwr & Hn & Hma).
-    rewrite xstep_watched, Hwr by done. cbn. eexists. split; [done|].
-    destruct (xtouch x r) eqn:Ht.
-    + split; [by intros ?%stale_of_none|]. by intros ?%stale_of_cur.
-    + split; [done|]. intros ->. rewrite Hd. apply xdisk_matches; auto.
-  - intros r w Hr. rewrite xstep_watched in Hr by done.
-    destruct (watched s !! r) as [w0|] eqn:Hw0; [|done]. cbn in Hr. injection Hr as <-.
-    destruct (xtouch x r) eqn:Ht; [by intros ?%stale_of_cur|].
-    intros ->. rewrite Hd, xdisk_dexists by done. by apply (Hw r WCur).
-  - unfold C_cells. rewrite Hce, Hmo. done.
+  unfold inside, contains. split.
+  - intros [->%bool_decide_eq_true|[? _]%andb_true_iff]%orb_true_iff; [apply under_refl|done].
+  - intros H. destruct (decide (r = f)) as [->|Hne]; [by rewrite bool_decide_eq_true_2|].
+    apply orb_true_iff. right. rewrite H. cbn. apply negb_true_iff, bool_decide_eq_false. congruence.
 Qed.
 
-Lemma xsteps_pend s xs : PendInv s -> PendInv (foldl xstep s xs).
-Proof. revert s. induction xs as [|x xs IH]; intros s H; cbn; [done|]. apply IH. by apply xstep_pend. Qed.
+Lemma contains_under f p : contains f p = true -> under f p = true /\ p <> f.
+Proof. unfold contains. intros [? ?%negb_true_iff%bool_decide_eq_false]%andb_true_iff. split; congruence. Qed.
+
+Lemma xunder_touch f x r : xunder f x = true -> xtouch x r = true -> inside f r = true.
+Proof.
+  intros Hu Ht. apply inside_spec.
+  assert (forall p, contains f p = true -> r = p \/ under p r = true \/ r = parent p -> under f r = true) as H.
+  { intros p [Hp Hne]%contains_under [->|[Hr| ->]]; [done|by eapply under_trans|by apply under_parent]. }
+  destruct x as [p c kp|p isd|p|p q]; cbn in *; bool_simp.
+  - apply (H p); auto.
+  - apply orb_true_iff in Ht as [Ht|Ht]; bool_simp; apply (H p); auto.
+  - apply orb_true_iff in Ht as [Ht|Ht]; bool_simp; apply (H p); auto.
+  - apply orb_true_iff in Ht as [Ht|Ht]; bool_simp; [|apply (H q); auto].
+    apply orb_true_iff in Ht as [Ht|Ht]; bool_simp; [|apply (H p); auto].
+    apply orb_true_iff in Ht as [Ht|Ht]; [apply (H p); auto|apply (H q); auto].
+Qed.
 
 (* ================================================================ _perform_changes + the callback *)
 Lemma apply_changes_dsk chg mov cre s : dsk (apply_changes chg mov cre s) = dsk s.
+Proof. done. Qed.
+
+Lemma apply_changes_stampw chg mov cre s r : stampw (apply_changes chg mov cre s) r = stampw s r.
 Proof. done. Qed.
 
 Lemma apply_changes_mods_lookup chg mov cre s r v :
@@ -276,73 +286,115 @@ Proof.
   split; [done|]. by apply (filter_none_id (mods s) (fun r => (chg r || mov r) && is_watched s r)).
 Qed.
 
+(* The heart of the matter.  If every cached module that is not dropped is still what its stored
+   indicator vouches for, and every watched resource whose stored indicator is out of date is named by
+   the changes, then afterwards everything cached is current and no stored indicator is out of date. *)
 Lemma apply_changes_core chg mov cre s :
-  PendInv s ->
-  (forall r, watched s !! r = Some WStale ->
-             (chg r || mov r) = true \/ (cre r = true /\ mods s !! r = None)) ->
+  wf_disk (dsk s) -> C_cells s ->
+  (forall r v, mods s !! r = Some v ->
+     exists i, watched s !! r = Some (Some i) /\
+               ((chg r || mov r) = false -> stampw s r = Some i -> matches (dsk s) r v)) ->
+  (forall r i, watched s !! r = Some (Some i) -> stampw s r <> Some i ->
+               (chg r || mov r) = true \/ (cre r = true /\ mods s !! r = None)) ->
   wf_disk (dsk (apply_changes chg mov cre s)) /\ C_mods (apply_changes chg mov cre s)
   /\ C_watched (apply_changes chg mov cre s) /\ C_cells (apply_changes chg mov cre s).
 Proof.
-  intros (Hwf & Hm & Hw & Hc) Hst. split; [done|]. split; [|split; [|by apply apply_changes_cells]].
+  intros Hwf Hc Hm Hst. split; [done|]. split; [|split; [|by apply apply_changes_cells]].
   - intros r v Hr. apply apply_changes_mods_lookup in Hr as [Hr Hd].
-    destruct (Hm r v Hr) as (w & Hwr & Hn & Hma).
+    destruct (Hm r v Hr) as (i & Hwr & Hma).
     assert (is_watched s r = true) as Hiw by (unfold is_watched; rewrite Hwr; by apply bool_decide_eq_true).
-    rewrite Hiw, andb_true_r in Hd. apply orb_false_iff in Hd as [Hchg Hmov].
-    rewrite apply_changes_dsk. unfold apply_changes. cbn.
+    rewrite Hiw, andb_true_r in Hd. pose proof Hd as Hd'. apply orb_false_iff in Hd as [Hchg Hmov].
+    rewrite apply_changes_dsk, apply_changes_stampw. unfold apply_changes. cbn.
     rewrite map_lookup_imap, Hwr. cbn. rewrite Hmov, Hchg. cbn.
-    destruct w; [done| |].
-    + specialize (Hw r WCur Hwr eq_refl). split; [|by apply Hma].
-      destruct (cre r); [|done]. unfold stampw. by rewrite Hw.
-    + destruct (Hst r Hwr) as [Hx|[_ Hx]]; [|congruence].
-      rewrite Hchg, Hmov in Hx. done.
-  - intros r w' Hr. rewrite apply_changes_dsk. unfold apply_changes in Hr. cbn in Hr.
+    destruct (decide (stampw s r = Some i)) as [Hi|Hni].
+    + rewrite Hi. split; [eauto|]. split; [by destruct (cre r)|]. by apply Hma.
+    + destruct (Hst r i Hwr Hni) as [Hx|[_ Hx]]; congruence.
+  - intros r w' Hr. rewrite apply_changes_stampw. unfold apply_changes in Hr. cbn in Hr.
     rewrite map_lookup_imap in Hr.
     destruct (watched s !! r) as [w|] eqn:Hwr; [|done]. cbn in Hr.
     destruct (mov r) eqn:Hmov.
-    + destruct (in_mods s r); [done|]. injection Hr as <-. done.
+    + destruct (in_mods s r); [done|]. by injection Hr as <-.
     + destruct (chg r || cre r) eqn:Hcc.
-      * injection Hr as <-. unfold stampw. destruct (dexists (dsk s) r); done.
-      * injection Hr as <-. apply orb_false_iff in Hcc as [Hchg Hcre]. split.
-        -- intros ->. destruct (Hst r Hwr) as [Hx|[Hx _]]; [|congruence].
-           rewrite Hchg, Hmov in Hx. done.
-        -- by apply (Hw r w Hwr).
+      * injection Hr as <-. by destruct (stampw s r).
+      * injection Hr as <-. apply orb_false_iff in Hcc as [Hchg Hcre]. destruct w as [i|]; [|done].
+        destruct (decide (stampw s r = Some i)) as [Hi|Hni]; [done|].
+        destruct (Hst r i Hwr Hni) as [Hx|[Hx _]]; [|congruence]. rewrite Hchg, Hmov in Hx. done.
 Qed.
 
-(* ============================================================================== validate *)
-Lemma pend_set_flist s l : PendInv s -> PendInv (set_flist s l).
-Proof. done. Qed.
+Lemma core_of_parts s :
+  wf_disk (dsk s) -> C_mods s -> C_flist s -> C_watched s -> C_cells s -> CacheCoherent s.
+Proof. intros. unfold CacheCoherent. tauto. Qed.
 
+(* ============================================================================== validate *)
 Lemma forget_all_core s : CacheCoherent s -> CacheCoherent (forget_all s).
 Proof.
   intros (?&?&?&?&?). split; [done|]. split; [done|]. split; [done|]. split; [done|].
   apply map_Forall_empty.
 Qed.
 
-Lemma validate_core s : PendInv s -> CacheCoherent (validate s).
+Lemma stampw_root s : stampw s [] = Some (0%N, 0%N).
+Proof. done. Qed.
+
+Lemma stampw_exists s r : is_Some (stampw s r) <-> dexists (dsk s) r = true.
 Proof.
-  intros HP. unfold validate.
-  assert (CacheCoherent (apply_changes (v_chg s) (w_gone s) (w_created s) (set_flist s None))) as HC;
-    [|destruct (fix_forget (cfg s)); [by apply forget_all_core|done]].
-  destruct (apply_changes_core (v_chg s) (w_gone s) (w_created s) (set_flist s None)) as (H1 & H2 & H3 & H4).
-  - by apply pend_set_flist.
-  - cbn. intros r Hr. left.
-    assert (is_watched s r = true) as Hiw by (unfold is_watched; rewrite Hr; by apply bool_decide_eq_true).
-    unfold v_chg, w_gone, w_stale. rewrite Hiw. cbn.
-    rewrite (bool_decide_eq_true_2 _ Hr).
-    destruct (dexists (dsk s) r); done.
-  - split; [done|]. split; [done|]. split; [|done]. done.
+  unfold stampw, cur_ind. rewrite dexists_spec. destruct r; [split; eauto|].
+  rewrite fmap_is_Some. naive_solver.
+Qed.
+
+(* whatever was done behind rope's back below the folder f, in a way that is visible in the indicators,
+   validate(f) re-establishes coherence *)
+Lemma validate_core f s xs :
+  CacheCoherent s -> forallb (xunder f) xs = true -> ind_sound s (foldl xstep s xs) ->
+  CacheCoherent (validate_in f (foldl xstep s xs)).
+Proof.
+  intros (Hwf & Hm & Hf & Hw & Hc) Hu Hs. set (s' := foldl xstep s xs) in *.
+  destruct (xsteps_parts s xs) as (Hmo & Hce & Hfl & Hwa & Hcf). fold s' in Hmo, Hce, Hfl, Hwa, Hcf.
+  assert (wf_disk (dsk s')) as Hwf' by (by apply xsteps_wf).
+  assert (forall r, stampw s' r = cur_ind (cfg s) (dsk s') r) as Hst' by (intros; unfold stampw; by rewrite Hcf).
+  (* outside f nothing changed *)
+  assert (forall r, inside f r = false -> stampw s' r = stampw s r) as Hout.
+  { intros r Hi. rewrite Hst'. unfold stampw, cur_ind. destruct r; [done|].
+    assert (dsk s' !! (n :: r) = dsk s !! (n :: r)) as ->; [|done].
+    apply (xsteps_untouched s xs (n :: r) Hwf).
+    intros x Hx. destruct (xtouch x (n :: r)) eqn:Ht; [|done].
+    rewrite forallb_forall in Hu. specialize (Hu x (proj1 (elem_of_list_In _ _) Hx)).
+    rewrite (xunder_touch f x _ Hu Ht) in Hi. done. }
+  unfold validate_in.
+  assert (CacheCoherent (apply_changes (v_chg s' f) (w_gone s' f) (w_created s' f) (set_flist s' None))) as HC;
+    [|destruct (fix_forget (cfg s')); [by apply forget_all_core|done]].
+  destruct (apply_changes_core (v_chg s' f) (w_gone s' f) (w_created s' f) (set_flist s' None)) as (H1 & H2 & H3 & H4).
+  - done.
+  - unfold C_cells. cbn. rewrite Hce, Hmo. done.
+  - cbn. rewrite Hmo, Hwa. intros r v Hr. destruct (Hm r v Hr) as ([i Hi] & Hwr & Hma).
+    exists i. split; [by rewrite Hwr, Hi|]. intros _ Hcur.
+    change (stampw (set_flist s' None) r) with (stampw s' r) in Hcur.
+    eapply matches_rview; [|exact Hma]. rewrite Hst' in Hcur.
+    rewrite Hi in Hwr. exact (Hs r (Some i) Hwr Hcur).
+  - cbn. rewrite Hmo, Hwa. intros r i Hwr Hne. left.
+    change (stampw (set_flist s' None) r) with (stampw s' r) in Hne.
+    pose proof (Hw r (Some i) Hwr) as Hcur. cbn in Hcur.
+    destruct (inside f r) eqn:Hin; [|by rewrite Hout, Hcur in Hne].
+    assert (is_watched s' r = true) as Hiw by (unfold is_watched; rewrite Hwa, Hwr; by apply bool_decide_eq_true).
+    unfold v_chg, w_gone, w_stale. rewrite Hin, Hiw. cbn.
+    assert (out_of_date s' r = true) as ->.
+    { unfold out_of_date. rewrite Hwa, Hwr. apply negb_true_iff, bool_decide_eq_false. exact Hne. }
+    destruct (dexists (dsk s') r); done.
+  - apply core_of_parts; done.
 Qed.
 
 (* =================================================================== loading modules into the cache *)
 Lemma add_mod_core s p v :
   CacheCoherent s -> matches (dsk s) p v -> dexists (dsk s) p = true -> CacheCoherent (add_mod s p v).
 Proof.
-  intros (Hwf & Hm & Hf & Hw & Hc) Hma He. split; [done|]. split; [|split; [done|split]].
-  - intros r v' Hr. cbn in *. destruct (decide (r = p)) as [->|Hne].
-    + rewrite lookup_insert in Hr. injection Hr as <-. rewrite lookup_insert. unfold stampw. by rewrite He.
+  intros (Hwf & Hm & Hf & Hw & Hc) Hma He. apply stampw_exists in He.
+  apply core_of_parts; try done.
+  - intros r v' Hr. change (stampw (add_mod s p v) r) with (stampw s r). cbn in *.
+    destruct (decide (r = p)) as [->|Hne].
+    + rewrite lookup_insert in Hr. injection Hr as <-. by rewrite lookup_insert.
     + rewrite lookup_insert_ne in Hr by done. rewrite lookup_insert_ne by done. by apply Hm.
-  - intros r w Hr. cbn in *. destruct (decide (r = p)) as [->|Hne].
-    + rewrite lookup_insert in Hr. injection Hr as <-. unfold stampw. by rewrite He.
+  - intros r w Hr. change (stampw (add_mod s p v) r) with (stampw s r). cbn in *.
+    destruct (decide (r = p)) as [->|Hne].
+    + rewrite lookup_insert in Hr. injection Hr as <-. by destruct (stampw s p).
     + rewrite lookup_insert_ne in Hr by done. by apply (Hw r w).
   - intros k t Hk. cbn in *. specialize (Hc k t Hk). cbn in Hc.
     destruct (decide (t = p)) as [->|Hne]; [by rewrite lookup_insert|by rewrite lookup_insert_ne].
@@ -350,7 +402,7 @@ Qed.
 
 (* what loading does not touch, and what it keeps *)
 Definition frame (s s' : state) : Prop :=
-  dsk s' = dsk s /\ cells s' = cells s /\ flist s' = flist s /\ cfg s' = cfg s
+  dsk s' = dsk s /\ cells s' = cells s /\ flist s' = flist s /\ (cfg s' = cfg s /\ clock s' = clock s)
   /\ (forall r v, mods s !! r = Some v -> mods s' !! r = Some v).
 
 Lemma frame_refl s : frame s s.
@@ -358,7 +410,7 @@ Proof. by repeat split. Qed.
 
 Lemma frame_trans s1 s2 s3 : frame s1 s2 -> frame s2 s3 -> frame s1 s3.
 Proof.
-  intros (A1 & A2 & A3 & A4 & A5) (B1 & B2 & B3 & B4 & B5).
+  intros (A1 & A2 & A3 & [A4 A6] & A5) (B1 & B2 & B3 & [B4 B6] & B5).
   repeat split; try congruence. intros r v Hr. by apply B5, A5.
 Qed.
 
@@ -371,28 +423,28 @@ Qed.
 Lemma load_file_frame s p : frame s (load_file s p).1.
 Proof.
   unfold load_file. destruct (mods s !! p) eqn:Hp; [apply frame_refl|].
-  destruct (dsk s !! p) as [[c|]|]; try apply frame_refl.
+  destruct (dsk s !! p) as [[c mt|mt]|]; try apply frame_refl.
   destruct (cok c); [by apply frame_add_mod|apply frame_refl].
 Qed.
 
 Lemma load_file_core s p : CacheCoherent s -> CacheCoherent (load_file s p).1.
 Proof.
   intros HC. unfold load_file. destruct (mods s !! p) eqn:Hp; [done|].
-  destruct (dsk s !! p) as [[c|]|] eqn:Hd; try done.
-  destruct (cok c) eqn:Hok; [|done]. cbn. apply add_mod_core; [done|by cbn|].
+  destruct (dsk s !! p) as [[c mt|mt]|] eqn:Hd; try done.
+  destruct (cok c) eqn:Hok; [|done]. cbn. apply add_mod_core; [done|cbn; by rewrite Hd|].
   apply dexists_spec. right. by rewrite Hd.
 Qed.
 
 Lemma load_frame s p : frame s (load s p).1.
 Proof.
   unfold load. destruct (mods s !! p) eqn:Hp; [apply frame_refl|].
-  destruct (dsk s !! p) as [[c|]|] eqn:Hd; [apply load_file_frame| |apply frame_refl].
-  cbn. set (s1 := match dsk s !! (p ++ [init_seg]) with Some (File _) => (load_file s (p ++ [init_seg])).1 | _ => s end).
+  destruct (dsk s !! p) as [[c mt|mt]|] eqn:Hd; [apply load_file_frame| |apply frame_refl].
+  cbn. set (s1 := match dsk s !! (p ++ [init_seg]) with Some (File _ _) => (load_file s (p ++ [init_seg])).1 | _ => s end).
   assert (frame s s1) as Hf.
-  { subst s1. destruct (dsk s !! (p ++ [init_seg])) as [[c|]|]; try apply frame_refl. apply load_file_frame. }
+  { subst s1. destruct (dsk s !! (p ++ [init_seg])) as [[c mt'|mt']|]; try apply frame_refl. apply load_file_frame. }
   destruct (mods s1 !! p) eqn:Hp1.
   - (* p itself cannot have been added by loading p/__init__.py *)
-    exfalso. subst s1. destruct (dsk s !! (p ++ [init_seg])) as [[c|]|] eqn:Hi; try congruence.
+    exfalso. subst s1. destruct (dsk s !! (p ++ [init_seg])) as [[c mt'|mt']|] eqn:Hi; try congruence.
     unfold load_file in Hp1. destruct (mods s !! (p ++ [init_seg])); [cbn in Hp1; congruence|].
     rewrite Hi in Hp1. destruct (cok c); cbn in Hp1; [|congruence].
     rewrite lookup_insert_ne in Hp1; [congruence|].
@@ -403,26 +455,26 @@ Qed.
 Lemma load_core s p : CacheCoherent s -> CacheCoherent (load s p).1.
 Proof.
   intros HC. unfold load. destruct (mods s !! p) eqn:Hp; [done|].
-  destruct (dsk s !! p) as [[c|]|] eqn:Hd; [by apply load_file_core| |done].
-  cbn. set (s1 := match dsk s !! (p ++ [init_seg]) with Some (File _) => (load_file s (p ++ [init_seg])).1 | _ => s end).
+  destruct (dsk s !! p) as [[c mt|mt]|] eqn:Hd; [by apply load_file_core| |done].
+  cbn. set (s1 := match dsk s !! (p ++ [init_seg]) with Some (File _ _) => (load_file s (p ++ [init_seg])).1 | _ => s end).
   assert (CacheCoherent s1 /\ dsk s1 = dsk s) as [HC1 Hd1].
-  { subst s1. destruct (dsk s !! (p ++ [init_seg])) as [[c|]|]; try done.
+  { subst s1. destruct (dsk s !! (p ++ [init_seg])) as [[c mt'|mt']|]; try done.
     split; [by apply load_file_core|]. apply load_file_frame. }
   apply add_mod_core; [done| |].
-  - cbn. rewrite Hd1. done.
+  - cbn. by rewrite Hd1, Hd.
   - rewrite Hd1. apply dexists_spec. right. by rewrite Hd.
 Qed.
 
 (* whether loading succeeds, and what ends up cached, is a function of the disk in a coherent state *)
 Definition disk_ok (d : disk) (p : list N) : bool :=
-  match d !! p with Some (File c) => cok c | Some Dir => true | None => false end.
+  match kind_of <$> d !! p with Some (Some c) => cok c | Some None => true | None => false end.
 
 Lemma load_ok s p : CacheCoherent s -> (load s p).2 = disk_ok (dsk s) p.
 Proof.
   intros (_ & Hm & _). unfold load, disk_ok. destruct (mods s !! p) as [v|] eqn:Hp.
-  - destruct (Hm p v Hp) as [_ Hma]. destruct v as [c|ch]; cbn in Hma; destruct Hma as [-> ?]; done.
-  - destruct (dsk s !! p) as [[c|]|] eqn:Hd; try done.
-    unfold load_file. rewrite Hp, Hd. by destruct (cok c).
+  - destruct (Hm p v Hp) as (_ & _ & Hma). destruct v as [c|ch]; cbn in Hma; destruct Hma as [-> ?]; done.
+  - destruct (dsk s !! p) as [[c mt|mt]|] eqn:Hd; try done.
+    unfold load_file. rewrite Hp, Hd. cbn. by destruct (cok c).
 Qed.
 
 Lemma load_lookup s p :
@@ -430,38 +482,39 @@ Lemma load_lookup s p :
   mods (load s p).1 !! p =
     match mods s !! p with
     | Some v => Some v
-    | None => match dsk s !! p with
-              | Some (File c) => if cok c then Some (PFile c) else None
-              | Some Dir => Some (PPkg None)
+    | None => match kind_of <$> dsk s !! p with
+              | Some (Some c) => if cok c then Some (PFile c) else None
+              | Some None => Some (PPkg None)
               | None => None
               end
     end.
 Proof.
   intros _. unfold load. destruct (mods s !! p) as [v|] eqn:Hp; [done|].
-  destruct (dsk s !! p) as [[c|]|] eqn:Hd; try done.
+  destruct (dsk s !! p) as [[c mt|mt]|] eqn:Hd; cbn; try done.
   - unfold load_file. rewrite Hp, Hd. destruct (cok c); cbn; [by rewrite lookup_insert|done].
-  - cbn. by rewrite lookup_insert.
+  - by rewrite lookup_insert.
 Qed.
-
 
 (* ================================================================== a change made through rope *)
 (* every watched resource whose indicator the change touches is named by the event translation *)
-Lemma touch_covered s x r :
-  CacheCoherent s -> xguard (dsk s) x = true -> xtouch x r = true -> watched s !! r = Some WCur ->
+Lemma touch_covered s x r i :
+  CacheCoherent s -> xguard (dsk s) x = true -> xtouch x r = true -> watched s !! r = Some (Some i) ->
   let e := event_of (dsk s) x in
   (ev_chg e r || ev_mov e r) = true \/ (ev_cre e r = true /\ mods s !! r = None).
 Proof.
   intros (Hwf & Hm & _ & Hw & _) Hg Ht Hr.
-  destruct (Hw r WCur Hr) as [_ He]. specialize (He eq_refl).
+  assert (dexists (dsk s) r = true) as He.
+  { apply stampw_exists. pose proof (Hw r (Some i) Hr) as H. cbn in H. rewrite H. eauto. }
   assert (forall p, p <> [] -> under p r = true -> is_Some (dsk s !! r)) as Hex.
   { intros p Hp Hu. apply dexists_spec in He as [->|?]; [|done]. apply under_nil_r in Hu. done. }
-  destruct x as [p c|p isd|p|p q]; cbn -[contains] in *.
+  destruct x as [p c kp|p isd|p|p q]; cbn -[contains] in *.
   - left. by rewrite Ht.
   - apply orb_true_iff in Ht as [Ht|Ht]; [right|left; by rewrite Ht].
     split; [done|]. apply bool_decide_eq_true in Ht as ->.
     destruct (mods s !! p) as [v|] eqn:Hp; [exfalso|done].
-    destruct (Hm p v Hp) as [_ Hma]. bool_simp.
-    assert (is_Some (dsk s !! p)) as Hs by (destruct v; cbn in Hma; destruct Hma as [-> _]; eauto).
+    destruct (Hm p v Hp) as (_ & _ & Hma). bool_simp.
+    assert (is_Some (dsk s !! p)) as Hs.
+    { destruct v; cbn in Hma; destruct Hma as [Hk _]; destruct (dsk s !! p); cbn in Hk; [eauto|done|eauto|done]. }
     assert (dexists (dsk s) p = true) by (apply dexists_spec; by right). congruence.
   - left. apply orb_true_iff in Ht as [Ht|Ht]; [|by rewrite Ht].
     apply orb_true_iff. right. bool_simp. rewrite nonroot_spec in *.
@@ -482,14 +535,11 @@ Proof.
       destruct (Hex q Hq0 Ht) as [? ?]. congruence.
 Qed.
 
-Lemma core_of_parts s :
-  wf_disk (dsk s) -> C_mods s -> C_flist s -> C_watched s -> C_cells s -> CacheCoherent s.
-Proof. intros. unfold CacheCoherent. tauto. Qed.
 
 Lemma soa_changed_core s p : CacheCoherent s -> CacheCoherent (soa_changed s p).
 Proof.
   intros HC. unfold soa_changed. destruct (soa s && is_py_seg (last_seg p)); [|done].
-  destruct (dsk s !! p) as [[c|]|]; try done.
+  destruct (dsk s !! p) as [[c mt|mt]|]; try done.
   destruct (load_file s p) as [s1 ok] eqn:E. destruct ok; [|done].
   apply forget_all_core. change s1 with (s1, true).1. rewrite <- E. by apply load_file_core.
 Qed.
@@ -501,42 +551,53 @@ Proof. done. Qed.
 
 Lemma handle_core s x :
   CacheCoherent s -> xguard (dsk s) x = true ->
+  (forall p c kp, x = XWrite p c kp -> kp = false) ->
   CacheCoherent (handle (xstep s x) (event_of (dsk s) x)).
 Proof.
-  intros HC Hg. pose proof HC as (Hwf & Hm & Hf & Hw & Hc).
-  pose proof (xstep_pend s x (coherent_pend s HC)) as HP.
+  intros HC Hg Hfresh. pose proof HC as (Hwf & Hm & Hf & Hw & Hc).
   set (e := event_of (dsk s) x). set (s1 := xstep s x) in *.
-  assert (mods s1 = mods s) as Hmo by (subst s1; unfold xstep; by rewrite Hg).
-  assert (dsk s1 = xdisk (dsk s) x) as Hd by (subst s1; unfold xstep; by rewrite Hg).
-  assert (flist s1 = flist s) as Hfl by (subst s1; unfold xstep; by rewrite Hg).
-  assert (forall r, watched s1 !! r = Some WStale ->
-                    (ev_chg e r || ev_mov e r) = true \/ (ev_cre e r = true /\ mods s1 !! r = None)) as Hst.
-  { intros r Hr. subst s1. rewrite xstep_watched in Hr by done.
-    destruct (watched s !! r) as [w0|] eqn:Hw0; [|done]. cbn in Hr. injection Hr as Hr.
-    destruct (Hw r w0 Hw0) as [Hns _].
-    destruct (xtouch x r) eqn:Ht; [|congruence].
-    destruct w0; cbn in Hr; try congruence.
-    rewrite Hmo. by apply touch_covered. }
+  destruct (xstep_parts s x) as (Hmo & Hce & Hfl & Hwa & Hcf). fold s1 in Hmo, Hce, Hfl, Hwa, Hcf.
+  assert (dsk s1 = xdisk (clock s) (dsk s) x) as Hd by (subst s1; unfold xstep; by rewrite Hg).
+  assert (wf_disk (dsk s1)) as Hwf1 by (subst s1; by apply xstep_wf).
+  (* what the change does not touch has the same indicator and looks the same *)
+  assert (forall r, xtouch x r = false -> stampw s1 r = stampw s r /\ rview (dsk s1) r = rview (dsk s) r) as Hun.
+  { intros r Ht. unfold stampw. rewrite Hcf, Hd. split; [by apply xdisk_cur_ind|by apply xdisk_rview]. }
   unfold handle. fold e.
   set (s1' := match e with EChanged _ => s1 | _ => set_flist s1 None end).
-  assert (PendInv s1' /\ watched s1' = watched s1 /\ mods s1' = mods s1 /\ dsk s1' = dsk s1) as (HP' & Hw' & Hm' & Hd').
-  { subst s1'. destruct e; done. }
-  destruct (apply_changes_core (ev_chg e) (ev_mov e) (ev_cre e) s1' HP') as (A1 & A2 & A3 & A4).
-  { rewrite Hw', Hm'. exact Hst. }
-  assert (CacheCoherent (apply_changes (ev_chg e) (ev_mov e) (ev_cre e) s1')) as HC2.
-  { apply core_of_parts; try done.
-    unfold C_flist. cbn. subst s1'. destruct x as [p c|p isd|p|p q]; cbn; try done.
-    rewrite Hfl, Hd. cbn. unfold C_flist in Hf. destruct (flist s) as [l|]; [|done].
-    cbn in Hg. destruct (dsk s !! p) as [[c'|]|] eqn:Ep; try done.
-    rewrite Hf. symmetry. by eapply files_of_write. }
-  assert (cfg s1' = cfg s1) as Hcf by (subst s1'; by destruct e).
-  destruct e; try (destruct (fix_forget _); [by apply forget_all_core|done]). by apply soa_changed_core.
+  assert (watched s1' = watched s /\ mods s1' = mods s /\ dsk s1' = dsk s1 /\ cells s1' = cells s
+          /\ (forall r, stampw s1' r = stampw s1 r) /\ cfg s1' = cfg s) as (Hw' & Hm' & Hd' & Hc' & Hs' & Hcf').
+  { subst s1'. destruct e; cbn; rewrite ?Hwa, ?Hmo, ?Hce, ?Hcf; done. }
+  destruct (apply_changes_core (ev_chg e) (ev_mov e) (ev_cre e) s1') as (A1 & A2 & A3 & A4).
+  - by rewrite Hd'.
+  - unfold C_cells. rewrite Hc', Hm'. done.
+  - rewrite Hm', Hw', Hd'. intros r v Hr. destruct (Hm r v Hr) as ([i Hi] & Hwr & Hma).
+    exists i. split; [by rewrite Hwr, Hi|]. intros Hnd _.
+    destruct (xtouch x r) eqn:Ht.
+    + (* a touched cached module is always named by the event *)
+      rewrite Hi in Hwr. destruct (touch_covered s x r i HC Hg Ht Hwr) as [Hx|[_ Hx]]; fold e in Hx; congruence.
+    + eapply matches_rview; [apply Hun, Ht|done].
+  - rewrite Hm', Hw'. intros r i Hwr Hne. rewrite Hs' in Hne.
+    pose proof (Hw r (Some i) Hwr) as Hcur. cbn in Hcur.
+    destruct (xtouch x r) eqn:Ht; [by apply touch_covered with i|].
+    destruct (Hun r Ht) as [Hx _]. congruence.
+  - assert (CacheCoherent (apply_changes (ev_chg e) (ev_mov e) (ev_cre e) s1')) as HC2.
+    { apply core_of_parts; try done.
+      unfold C_flist. cbn. subst s1'. destruct x as [p c kp|p isd|p|p q]; cbn; try done.
+      rewrite Hfl, Hd. cbn. unfold C_flist in Hf. destruct (flist s) as [l|]; [|done].
+      cbn in Hg. destruct (dsk s !! p) as [[c' mt|mt]|] eqn:Ep; try done.
+      rewrite Hf. symmetry. by eapply files_of_write. }
+    destruct e; try (destruct (fix_forget _); [by apply forget_all_core|done]). by apply soa_changed_core.
 Qed.
 
-Lemma rstep_core s x : CacheCoherent s -> move_raises s x = false -> CacheCoherent (rstep s x).
+Lemma fresh_x_guard d x : xguard d (fresh_x x) = xguard d x.
+Proof. by destruct x. Qed.
+
+Lemma rstep_core_guarded s x :
+  CacheCoherent s -> xguard (dsk s) (fresh_x x) = true -> move_raises s (fresh_x x) = false ->
+  CacheCoherent (if move_raises s (fresh_x x) then set_flist (xstep s (fresh_x x)) None
+                 else handle (xstep s (fresh_x x)) (event_of (dsk s) (fresh_x x))).
 Proof.
-  intros HC Hr. unfold rstep. destruct (xguard (dsk s) x) eqn:Hg; [|done].
-  rewrite Hr. by apply handle_core.
+  intros HC Hg Hr. rewrite Hr. apply handle_core; [done|done|]. intros p c kp. destruct x; cbn; congruence.
 Qed.
 
 (* ========================================================================================= queries *)
@@ -545,7 +606,7 @@ Lemma load_ok_cached s p :
 Proof.
   intros HC Hok. rewrite load_ok in Hok by done. rewrite load_lookup by done.
   unfold disk_ok in Hok. destruct (mods s !! p); [eauto|].
-  destruct (dsk s !! p) as [[c|]|]; [rewrite Hok| |done]; eauto.
+  destruct (kind_of <$> dsk s !! p) as [[c|]|]; [rewrite Hok| |done]; eauto.
 Qed.
 
 Lemma set_cell_core s k t : CacheCoherent s -> is_Some (mods s !! t) -> CacheCoherent (set_cell s k t).
@@ -559,29 +620,35 @@ Lemma set_mod_children_core s p :
   CacheCoherent (set_mod s p (PPkg (Some (children (dsk s) p)))).
 Proof.
   intros (Hwf & Hm & Hf & Hw & Hc) Hp. apply core_of_parts; try done.
-  - intros r v Hr. cbn in *. destruct (decide (r = p)) as [->|Hne].
-    + rewrite lookup_insert in Hr. injection Hr as <-. destruct (Hm p _ Hp) as [? [? _]]. done.
+  - intros r v Hr. change (stampw (set_mod s p (PPkg (Some (children (dsk s) p)))) r) with (stampw s r).
+    cbn in *. destruct (decide (r = p)) as [->|Hne].
+    + rewrite lookup_insert in Hr. injection Hr as <-. destruct (Hm p _ Hp) as (? & ? & [? _]). done.
     + rewrite lookup_insert_ne in Hr by done. by apply Hm.
   - intros k t Hk. cbn. specialize (Hc k t Hk). cbn in Hc.
     destruct (decide (t = p)) as [->|Hne]; [by rewrite lookup_insert|by rewrite lookup_insert_ne].
 Qed.
 
-Lemma run_query_dsk s q : dsk (run_query s q).1 = dsk s /\ cfg (run_query s q).1 = cfg s.
+Lemma frame_dcc s s' : frame s s' -> dsk s' = dsk s /\ cfg s' = cfg s /\ clock s' = clock s.
+Proof. intros (?&?&?&[? ?]&?). done. Qed.
+
+Lemma run_query_dsk s q :
+  dsk (run_query s q).1 = dsk s /\ cfg (run_query s q).1 = cfg s /\ clock (run_query s q).1 = clock s.
 Proof.
   destruct q as [|p|m n|p]; cbn.
   - by destruct (flist s).
   - destruct (load s p) as [s1 ok] eqn:E. cbn. pose proof (load_frame s p) as Hf. rewrite E in Hf.
-    destruct Hf as (?&?&?&?&?). done.
+    by apply frame_dcc.
   - destruct (load s m) as [s1 ok] eqn:E. pose proof (load_frame s m) as Hf. rewrite E in Hf.
-    destruct Hf as (Hd&?&?&Hs&?). cbn in Hd, Hs.
+    apply frame_dcc in Hf as (Hd & Hs & Hk). cbn in Hd, Hs, Hk.
     destruct (mods s1 !! m) as [[c|]|]; try done.
     destruct (ok && bool_decide (n ∈ cimports c)); [|done].
     destruct (cells s1 !! (m, n)); [done|].
     destruct (find_module (shape (dsk s1)) (parent m) n) as [t|]; [|done].
     destruct (load s1 t) as [s2 ok2] eqn:E2. pose proof (load_frame s1 t) as Hf2. rewrite E2 in Hf2.
-    destruct Hf2 as (Hd2&?&?&Hs2&?). cbn in Hd2, Hs2. destruct ok2; cbn; split; congruence.
+    apply frame_dcc in Hf2 as (Hd2 & Hs2 & Hk2). cbn in Hd2, Hs2, Hk2.
+    destruct ok2; cbn; repeat split; congruence.
   - destruct (load s p) as [s1 ok] eqn:E. pose proof (load_frame s p) as Hf. rewrite E in Hf.
-    destruct Hf as (Hd&?&?&Hs&?). cbn in Hd, Hs.
+    apply frame_dcc in Hf as (Hd & Hs & Hk). cbn in Hd, Hs, Hk.
     destruct (mods s1 !! p) as [[c|[l|]]|]; done.
 Qed.
 
@@ -634,24 +701,29 @@ Lemma run_query_coherent s q : Coherent s -> Coherent (run_query s q).1.
 Proof. intros H. split; [apply run_query_core, H|by apply run_query_resolution]. Qed.
 
 (* ================================================================================ every step *)
-Theorem cache_coherent_inv s o : CacheCoherent s -> raises s o = false -> CacheCoherent (step s o).
+Lemma raises_fresh s x : raises s (ORope x) = xguard (dsk s) (fresh_x x) && move_raises s (fresh_x x).
+Proof. by destruct x. Qed.
+
+Theorem cache_coherent_inv s o :
+  CacheCoherent s -> raises s o = false -> ext_ok s o -> CacheCoherent (step s o).
 Proof.
-  intros HC Hr. destruct o as [x|xs|q]; cbn in *.
-  - unfold rstep. destruct (xguard (dsk s) x) eqn:Hg; [|done]. cbn in Hr. rewrite Hr. by apply handle_core.
-  - by apply validate_core, xsteps_pend, coherent_pend.
+  intros HC Hr He. destruct o as [x|f xs|q]; cbn [step].
+  - rewrite raises_fresh in Hr. unfold rstep. destruct (xguard (dsk s) (fresh_x x)) eqn:Hg; [|done].
+    cbn in Hr. by apply rstep_core_guarded.
+  - destruct He as (_ & Hu & Hs). by apply validate_core.
   - by apply run_query_core.
 Qed.
 
 Lemma xstep_cells s x : cells (xstep s x) = cells s.
-Proof. unfold xstep. by destruct (xguard (dsk s) x). Qed.
+Proof. apply xstep_parts. Qed.
 
 Lemma xsteps_cells s xs : cells (foldl xstep s xs) = cells s.
-Proof. revert s. induction xs as [|x xs IH]; intros s; cbn; [done|]. by rewrite IH, xstep_cells. Qed.
+Proof. apply xsteps_parts. Qed.
 
 Lemma soa_changed_cells s p : cells (soa_changed s p) = cells s \/ cells (soa_changed s p) = ∅.
 Proof.
   unfold soa_changed. destruct (soa s && is_py_seg (last_seg p)); [|by left].
-  destruct (dsk s !! p) as [[c|]|]; try by left.
+  destruct (dsk s !! p) as [[c mt|mt]|]; try by left.
   destruct (load_file s p) as [s1 ok] eqn:E. destruct ok; [by right|by left].
 Qed.
 
@@ -659,11 +731,11 @@ Qed.
 Lemma step_cells s o :
   (forall q, o <> OQuery q) -> cells (step s o) = cells s \/ cells (step s o) = ∅.
 Proof.
-  intros Hq. destruct o as [x|xs|q]; [| |by destruct (Hq q)]; cbn [step].
-  - unfold rstep. destruct (xguard (dsk s) x) eqn:Hg; [|by left].
-    destruct (move_raises s x); [left; cbn; apply xstep_cells|].
-    unfold handle. set (e := event_of (dsk s) x).
-    set (s1' := match e with EChanged _ => xstep s x | _ => set_flist (xstep s x) None end).
+  intros Hq. destruct o as [x|f xs|q]; [| |by destruct (Hq q)]; cbn [step].
+  - unfold rstep. set (x' := fresh_x x). destruct (xguard (dsk s) x') eqn:Hg; [|by left].
+    destruct (move_raises s x'); [left; cbn; apply xstep_cells|].
+    unfold handle. set (e := event_of (dsk s) x').
+    set (s1' := match e with EChanged _ => xstep s x' | _ => set_flist (xstep s x') None end).
     assert (cells s1' = cells s) as Hc1 by (subst s1'; destruct e; cbn; apply xstep_cells).
     set (s2 := apply_changes (ev_chg e) (ev_mov e) (ev_cre e) s1').
     assert (cells s2 = cells s \/ cells s2 = ∅) as H2.
@@ -672,17 +744,17 @@ Proof.
     destruct e; try (destruct (fix_forget _); [by right|done]).
     destruct (soa_changed_cells s2 p) as [H|H]; [|by right].
     destruct H2 as [H2|H2]; [left|right]; congruence.
-  - unfold validate. destruct (fix_forget _); [by right|].
-    destruct (apply_changes_cells_cases (v_chg (foldl xstep s xs)) (w_gone (foldl xstep s xs))
-                (w_created (foldl xstep s xs)) (set_flist (foldl xstep s xs) None)) as [[Hc _]|Hc].
+  - unfold validate_in. destruct (fix_forget _); [by right|].
+    destruct (apply_changes_cells_cases (v_chg (foldl xstep s xs) f) (w_gone (foldl xstep s xs) f)
+                (w_created (foldl xstep s xs) f) (set_flist (foldl xstep s xs) None)) as [[Hc _]|Hc].
     + left. rewrite Hc. cbn. apply xsteps_cells.
     + by right.
 Qed.
 
 Theorem coherent_inv_partial s o :
-  Coherent s -> raises s o = false -> resolution_unaffected s o -> Coherent (step s o).
+  Coherent s -> raises s o = false -> ext_ok s o -> resolution_unaffected s o -> Coherent (step s o).
 Proof.
-  intros [HC HR] Hr Hun.
+  intros [HC HR] Hr He Hun.
   assert ((exists q, o = OQuery q) \/ ~ (exists q, o = OQuery q)) as [[q ->]|Hnq].
   { destruct o; [right|right|left]; try (intros [q Hq]; discriminate). eauto. }
   { cbn. by apply run_query_coherent. }
@@ -698,14 +770,14 @@ Definition disk_answer (d : disk) (q : query) : answer :=
   match q with
   | QFiles => AFiles (files_of d)
   | QLoad p =>
-      ALoad (match d !! p with
-             | Some (File c) => if cok c then Some (Some c) else None
-             | Some Dir => Some None
+      ALoad (match kind_of <$> d !! p with
+             | Some (Some c) => if cok c then Some (Some c) else None
+             | Some None => Some None
              | None => None
              end)
   | QResolve m n =>
-      match d !! m with
-      | Some (File c) =>
+      match kind_of <$> d !! m with
+      | Some (Some c) =>
           if cok c && bool_decide (n ∈ cimports c) then
             match find_module (shape d) (parent m) n with
             | None => ATarget (Some None)
@@ -715,8 +787,8 @@ Definition disk_answer (d : disk) (q : query) : answer :=
       | _ => ATarget None
       end
   | QChildren p =>
-      match d !! p with
-      | Some Dir => AChildren (Some (children d p))
+      match kind_of <$> d !! p with
+      | Some None => AChildren (Some (children d p))
       | _ => AChildren None
       end
   end.
@@ -725,16 +797,16 @@ Definition disk_answer (d : disk) (q : query) : answer :=
 Lemma load_lookup_disk s p :
   CacheCoherent s ->
   match mods (load s p).1 !! p with
-  | Some (PFile c) => dsk s !! p = Some (File c) /\ cok c = true /\ (load s p).2 = true
-  | Some (PPkg ch) => dsk s !! p = Some Dir /\ (load s p).2 = true
+  | Some (PFile c) => kind_of <$> dsk s !! p = Some (Some c) /\ cok c = true /\ (load s p).2 = true
+  | Some (PPkg ch) => kind_of <$> dsk s !! p = Some None /\ (load s p).2 = true
                       /\ match ch with Some l => l = children (dsk s) p | None => True end
   | None => (load s p).2 = false \/ False
   end.
 Proof.
   intros HC. pose proof HC as (_ & Hm & _). rewrite load_lookup, load_ok by done. unfold disk_ok.
   destruct (mods s !! p) as [v|] eqn:Hp.
-  - destruct (Hm p v Hp) as [_ Hma]. destruct v as [c|ch]; cbn in Hma; destruct Hma as [Hd ?]; rewrite Hd; done.
-  - destruct (dsk s !! p) as [[c|]|]; [destruct (cok c) eqn:Hc| |]; try done; by left.
+  - destruct (Hm p v Hp) as (_ & _ & Hma). destruct v as [c|ch]; cbn in Hma; destruct Hma as [Hd ?]; rewrite Hd; done.
+  - destruct (kind_of <$> dsk s !! p) as [[c|]|]; [destruct (cok c) eqn:Hc| |]; try done; by left.
 Qed.
 
 Lemma query_disk_gen s q :
@@ -749,7 +821,7 @@ Proof.
     destruct (mods s1 !! p) as [[c|ch]|]; cbn.
     + destruct HL as (-> & -> & ->). done.
     + destruct HL as (-> & -> & _). done.
-    + destruct HL as [->|[]]. destruct (dsk s !! p) as [[c|]|]; try done. by rewrite <- Hok.
+    + destruct HL as [->|[]]. destruct (kind_of <$> dsk s !! p) as [[c|]|]; try done. by rewrite <- Hok.
   - destruct (load s m) as [s1 ok] eqn:E.
     pose proof (load_lookup_disk s m HC) as HL. rewrite E in HL. cbn in HL.
     pose proof (load_frame s m) as HF. rewrite E in HF. destruct HF as (Hd1 & Hc1 & _). cbn in Hd1, Hc1.
@@ -761,7 +833,7 @@ Proof.
       destruct (cells s !! (m, n)) as [t|] eqn:Hcell.
       * pose proof (HR _ _ Hcell) as Hres.
         change (find_module (shape (dsk s)) (parent m) n = Some t) in Hres. rewrite Hres. cbn.
-        destruct (Hc _ _ Hcell) as [v Hv]. destruct (Hm t v Hv) as [_ Hma].
+        destruct (Hc _ _ Hcell) as [v Hv]. destruct (Hm t v Hv) as (_ & _ & Hma).
         unfold disk_ok. destruct v as [c'|ch']; cbn in Hma; destruct Hma as [-> ?]; [|done].
         by rewrite H.
       * destruct (find_module (shape (dsk s)) (parent m) n) as [t|]; [|done].
@@ -771,7 +843,7 @@ Proof.
     + destruct HL as (-> & _). done.
     + destruct HL as [->|[]].
       pose proof (load_ok s m HC) as Hok. rewrite E in Hok. cbn in Hok. unfold disk_ok in Hok.
-      destruct (dsk s !! m) as [[c|]|]; try done. by rewrite <- Hok.
+      destruct (kind_of <$> dsk s !! m) as [[c|]|]; try done. by rewrite <- Hok.
   - destruct (load s p) as [s1 ok] eqn:E.
     pose proof (load_lookup_disk s p HC) as HL. rewrite E in HL. cbn in HL.
     pose proof (load_frame s p) as HF. rewrite E in HF. destruct HF as (Hd1 & _). cbn in Hd1.
@@ -781,7 +853,7 @@ Proof.
     + destruct HL as (-> & _). by rewrite Hd1.
     + destruct HL as [->|[]].
       pose proof (load_ok s p HC) as Hok. rewrite E in Hok. cbn in Hok. unfold disk_ok in Hok.
-      destruct (dsk s !! p) as [[c|]|]; try done.
+      destruct (kind_of <$> dsk s !! p) as [[c|]|]; try done.
 Qed.
 
 Theorem query_disk s q : Coherent s -> (run_query s q).2 = disk_answer (dsk s) q.
@@ -802,9 +874,9 @@ Qed.
 Lemma soa_changed_frame s p : dsk (soa_changed s p) = dsk s /\ cfg (soa_changed s p) = cfg s.
 Proof.
   unfold soa_changed. destruct (soa s && is_py_seg (last_seg p)); [|done].
-  destruct (dsk s !! p) as [[c|]|]; try done.
+  destruct (dsk s !! p) as [[c mt|mt]|]; try done.
   destruct (load_file s p) as [s1 ok] eqn:E. pose proof (load_file_frame s p) as HF. rewrite E in HF.
-  destruct HF as (Hd & _ & _ & Hc & _). destruct ok; done.
+  apply frame_dcc in HF as (Hd & Hc & _). destruct ok; done.
 Qed.
 
 Lemma handle_frame s e : dsk (handle s e) = dsk s /\ cfg (handle s e) = cfg s.
@@ -815,18 +887,18 @@ Proof.
 Qed.
 
 Lemma xstep_cfg s x : cfg (xstep s x) = cfg s.
-Proof. unfold xstep. by destruct (xguard (dsk s) x). Qed.
+Proof. apply xstep_parts. Qed.
 
 Lemma xsteps_cfg s xs : cfg (foldl xstep s xs) = cfg s.
-Proof. revert s. induction xs as [|x xs IH]; intros s; cbn; [done|]. by rewrite IH, xstep_cfg. Qed.
+Proof. apply xsteps_parts. Qed.
 
 Lemma step_cfg s o : cfg (step s o) = cfg s.
 Proof.
-  destruct o as [x|xs|q]; cbn [step].
-  - unfold rstep. destruct (xguard (dsk s) x); [|done].
-    destruct (move_raises s x); [cbn; apply xstep_cfg|].
-    destruct (handle_frame (xstep s x) (event_of (dsk s) x)) as [_ ->]. apply xstep_cfg.
-  - unfold validate. destruct (fix_forget _); cbn; apply xsteps_cfg.
+  destruct o as [x|f xs|q]; cbn [step].
+  - unfold rstep. destruct (xguard (dsk s) (fresh_x x)); [|done].
+    destruct (move_raises s (fresh_x x)); [cbn; apply xstep_cfg|].
+    destruct (handle_frame (xstep s (fresh_x x)) (event_of (dsk s) (fresh_x x))) as [_ ->]. apply xstep_cfg.
+  - unfold validate_in. destruct (fix_forget _); cbn; apply xsteps_cfg.
   - apply run_query_dsk.
 Qed.
 
@@ -840,62 +912,65 @@ Lemma resolution_unaffected_fixed s o :
   fix_forget (cfg s) = true -> raises s o = false -> resolution_unaffected s o.
 Proof.
   intros Hf Hr. unfold resolution_unaffected.
-  destruct o as [x|xs|q]; cbn [step].
-  - unfold rstep. cbn in Hr. destruct (xguard (dsk s) x) eqn:Hg; [|by intros k t _].
+  destruct o as [x|f xs|q]; cbn [step].
+  - rewrite raises_fresh in Hr. unfold rstep. destruct (xguard (dsk s) (fresh_x x)) eqn:Hg; [|by intros k t _].
     cbn in Hr. rewrite Hr.
-    destruct x as [p c|p isd|p|p q].
+    destruct x as [p c kp|p isd|p|p q]; cbn [fresh_x] in *.
     + (* a write does not change the shape of the tree *)
-      intros k t _. destruct (handle_frame (xstep s (XWrite p c)) (event_of (dsk s) (XWrite p c))) as [-> _].
-      unfold xstep. rewrite Hg. cbn. cbn in Hg. destruct (dsk s !! p) as [[c'|]|] eqn:Ep; try done.
+      intros k t _.
+      destruct (handle_frame (xstep s (XWrite p c false)) (event_of (dsk s) (XWrite p c false))) as [-> _].
+      unfold xstep. rewrite Hg. cbn. cbn in Hg. destruct (dsk s !! p) as [[c' mt|mt]|] eqn:Ep; try done.
       by erewrite shape_write.
     + unfold handle. cbn. rewrite xstep_cfg, Hf. apply map_Forall_empty.
     + unfold handle. cbn. rewrite xstep_cfg, Hf. apply map_Forall_empty.
     + unfold handle. cbn. rewrite xstep_cfg, Hf. apply map_Forall_empty.
-  - unfold validate. rewrite xsteps_cfg, Hf. apply map_Forall_empty.
+  - unfold validate_in. rewrite xsteps_cfg, Hf. apply map_Forall_empty.
   - intros k t _. by destruct (run_query_dsk s q) as [-> _].
 Qed.
 
-(* with both fixes the invariant holds at full strength for every step ... *)
+(* with both fixes the invariant holds at full strength for every step: the only hypothesis left is the
+   one the property itself makes about changes behind rope's back ([ext_ok]: they are confined to the
+   validated folder and visible in the (mtime, size) indicators) *)
 Theorem coherent_inv_fixed s o :
-  fix_move (cfg s) = true -> fix_forget (cfg s) = true -> Coherent s -> Coherent (step s o).
+  fix_move (cfg s) = true -> fix_forget (cfg s) = true -> ext_ok s o -> Coherent s -> Coherent (step s o).
 Proof.
-  intros Hm Hf HC. apply coherent_inv_partial; [done|by apply raises_fixed|].
+  intros Hm Hf He HC. apply coherent_inv_partial; [done|by apply raises_fixed|done|].
   apply resolution_unaffected_fixed; [done|by apply raises_fixed].
 Qed.
 
 Lemma run_coherent_fixed s ops :
-  fix_move (cfg s) = true -> fix_forget (cfg s) = true -> Coherent s -> Coherent (run s ops).
+  fix_move (cfg s) = true -> fix_forget (cfg s) = true -> ext_sound s ops -> Coherent s -> Coherent (run s ops).
 Proof.
-  revert s. induction ops as [|o ops IH]; intros s Hm Hf HC; cbn; [done|].
-  apply IH; rewrite ?step_cfg; try done. by apply coherent_inv_fixed.
+  revert s. induction ops as [|o ops IH]; intros s Hm Hf Hes HC; cbn; [done|].
+  destruct Hes as [He Hes]. apply IH; rewrite ?step_cfg; try done. by apply coherent_inv_fixed.
 Qed.
 
 (* ================================================================================ whole histories *)
 Lemma run_coherent s ops : Coherent s -> admissible s ops -> Coherent (run s ops).
 Proof.
   revert s. induction ops as [|o ops IH]; intros s HC Ha; cbn; [done|].
-  destruct Ha as (Hr & Hu & Ha). apply IH; [|done]. by apply coherent_inv_partial.
+  destruct Ha as (Hr & He & Hu & Ha). apply IH; [|done]. by apply coherent_inv_partial.
 Qed.
 
 Lemma run_cache_coherent s ops : CacheCoherent s -> no_raise s ops -> CacheCoherent (run s ops).
 Proof.
   revert s. induction ops as [|o ops IH]; intros s HC Ha; cbn; [done|].
-  destruct Ha as (Hr & Ha). apply IH; [|done]. by apply cache_coherent_inv.
+  destruct Ha as (Hr & He & Ha). apply IH; [|done]. by apply cache_coherent_inv.
 Qed.
 
 Lemma init_coherent d b : wf_disk d -> Coherent (init d b).
 Proof. intros. by apply (fresh_coherent (init d b)). Qed.
 
-(* ... and every history of every length is answered like by a brand-new project, unconditionally *)
+(* ... and every history of every length is answered like by a brand-new project *)
 Theorem history_agrees_fixed d c ops q :
-  fix_move c = true -> fix_forget c = true -> wf_disk d ->
+  fix_move c = true -> fix_forget c = true -> wf_disk d -> ext_sound (init d c) ops ->
   (run_query (run (init d c) ops) q).2 = (run_query (fresh (run (init d c) ops)) q).2.
 Proof.
-  intros Hm Hf Hwf. apply query_agrees, run_coherent_fixed; [done|done|by apply init_coherent].
+  intros Hm Hf Hwf He. apply query_agrees, run_coherent_fixed; [done|done|done|by apply init_coherent].
 Qed.
 
 Theorem code_history_agrees d b ops q :
-  wf_disk d ->
+  wf_disk d -> ext_sound (init d (code_cfg b)) ops ->
   (run_query (run (init d (code_cfg b)) ops) q).2 = (run_query (fresh (run (init d (code_cfg b)) ops)) q).2.
 Proof. intros. by apply history_agrees_fixed. Qed.
 
@@ -912,16 +987,24 @@ Proof.
   rewrite (query_disk_gen (fresh s)); [done| |by left]. apply fresh_coherent, HC.
 Qed.
 
-(* validate catches up with anything done behind rope's back *)
-Theorem validate_catches_up s xs : CacheCoherent s -> CacheCoherent (validate (foldl xstep s xs)).
-Proof. intros. by apply validate_core, xsteps_pend, coherent_pend. Qed.
-
+(* validate(f) catches up with anything done behind rope's back below f, provided each modification of a
+   watched resource changes at least one component of its stored (mtime, size) indicator *)
+Theorem validate_catches_up f s xs :
+  CacheCoherent s -> forallb (xunder f) xs = true -> ind_sound s (foldl xstep s xs) ->
+  CacheCoherent (validate_in f (foldl xstep s xs)).
+Proof. apply validate_core. Qed.
 
 Lemma admissible_b_spec s ops : admissible_b s ops = true -> admissible s ops.
 Proof.
   revert s. induction ops as [|o ops IH]; intros s H; cbn in *; [done|].
-  apply andb_true_iff in H as [H H3]. apply andb_true_iff in H as [H1 H2].
-  apply negb_true_iff in H1. apply bool_decide_eq_true in H2. auto.
+  apply andb_true_iff in H as [H H4]. apply andb_true_iff in H as [H H3]. apply andb_true_iff in H as [H1 H2].
+  apply negb_true_iff in H1. apply bool_decide_eq_true in H2. apply bool_decide_eq_true in H3. auto.
+Qed.
+
+Lemma ext_sound_b_spec s ops : ext_sound_b s ops = true -> ext_sound s ops.
+Proof.
+  revert s. induction ops as [|o ops IH]; intros s H; cbn in *; [done|].
+  apply andb_true_iff in H as [H1 H2]. apply bool_decide_eq_true in H1. auto.
 Qed.
 
 Theorem history_cache_agrees d b ops q :
